@@ -232,11 +232,24 @@ def inspect_filter(prog, fn, pidx, sink):
     der = derive(fn, {par["id"]: "fmt"}, through_int=True)
     searches = []
     other = []
+    lb_loads = []
     for i in fn.insts():
         if i is sink:
             continue
         if i["op"] == "load" and labels_of(i["ops"][0], der, None):
-            other.append(("load of format characters", i))
+            # a character of the format read through an index (fmt[off - 1]) instead of through the search result (p[-1]): part of a
+            # look-behind guard when its only use is the comparison with '%'; what the guard lets through is decided semantically below
+            us, v_, ok_ = None, i["id"], True
+            for _hop in range(3):
+                us = [u for u in fn.insts() if any(o.get("k") == "v" and o.get("id") == v_ for o in list(u.get("ops", ())) + [w["v"] for w in u.get("incoming", ())] + list(u.get("args", ())))]
+                if len(us) == 1 and us[0]["op"] in ("sext", "zext"):
+                    v_ = us[0]["id"]
+                    continue
+                break
+            if us and all(u["op"] == "icmp" and any(o.get("k") == "c" and o.get("v") == 37 for o in u["ops"]) for u in us):
+                lb_loads.append(i)
+            else:
+                other.append(("load of format characters", i))
         elif i["op"] in ("call", "invoke"):
             name = i.get("callee") or ""
             if name.startswith("llvm.dbg"):
@@ -269,6 +282,9 @@ def inspect_filter(prog, fn, pidx, sink):
                 continue     # another formatted sink (the no-space probe): handled as its own sink
             other.append(("call %s" % name, i))
     dom_searches = [q for q in searches if fn.inst_dominates(q, sink)]
+    for l in lb_loads:
+        if not any(fn.inst_dominates(q, l) for q in dom_searches):
+            other.append(("load of format characters", l))
     if other:
         return "other", dom_searches, other
     if not dom_searches:
@@ -284,6 +300,8 @@ def inspect_filter(prog, fn, pidx, sink):
                 if po.get("k") == "v":
                     d = fn.defs.get(po["id"])
                     if d is not None and d["op"] == "getelementptr" and labels_of(d["base"], dq, None) and d.get("coff", 0) < 0:
+                        has_prev = True
+                    if any(i is l for l in lb_loads) and fn.inst_dominates(q, i):
                         has_prev = True
             if i["op"] == "icmp" and any(labels_of(o, dq, None) for o in i["ops"]) and \
                     any(labels_of(o, der, None) or (o.get("k") == "c" and o.get("v") == 0) for o in i["ops"]):
